@@ -15,7 +15,14 @@ def call(g, a, b, C):
                 are_sigma_separated(partial, u, v, conditions=[c for c in ps if c not in (u, v)])
     gr = GG.to_y0(g, warm=warm, loose=True)
     before = GG.snapshot(gr)
-    out = bool(are_sigma_separated(gr, GG.V(a), GG.V(b), conditions=GG.present([GG.V(c) for c in C], (a, b))))
+    import zlib
+    how = zlib.crc32(repr((g, a, b)).encode()) % 3
+    if not C and how == 0:
+        out = bool(are_sigma_separated(gr, GG.V(a), GG.V(b)))                  # no conditions given at all
+    elif not C and how == 1:
+        out = bool(are_sigma_separated(gr, GG.V(a), GG.V(b), conditions=None))
+    else:
+        out = bool(are_sigma_separated(gr, GG.V(a), GG.V(b), conditions=GG.present([GG.V(c) for c in C], (a, b))))
     return out, GG.snapshot(gr) != before
 
 
